@@ -720,36 +720,66 @@ func calcCtor(cx *Ctx, fn *ssa.Function, depth int) (typ string, why string) {
 	if depth > 4 {
 		return "", "constructor chain too deep"
 	}
-	argOK := func(v ssa.Value, mcOwner *ssa.Function) bool {
-		// the constructor's own parameter, or a closure that returns the captured parameter on every path
+	// unchanged: the value is the enclosing function's first parameter, a closure that returns it (captured) on every
+	// path, or the result of a module helper that is handed it and returns such a value on every path
+	var unchanged func(v ssa.Value, d int) bool
+	unchanged = func(v ssa.Value, d int) bool {
+		if d > 4 {
+			return false
+		}
+		v = stripConv(v)
 		if paramIndexOf(v) == 0 {
 			return true
 		}
-		mc, isMC := v.(*ssa.MakeClosure)
-		if !isMC {
-			return false
-		}
-		cl := mc.Fn.(*ssa.Function)
-		nr, all := 0, true
-		allInstrs(cl, func(x ssa.Instruction) {
-			ret, ok := x.(*ssa.Return)
-			if !ok || len(ret.Results) != 1 {
-				return
-			}
-			nr++
-			fv, isFV := stripLoad(ret.Results[0]).(*ssa.FreeVar)
-			if !isFV {
-				all = false
-				return
-			}
-			for i, q := range cl.FreeVars {
-				if q == fv && paramIndexOf(mc.Bindings[i]) != 0 {
-					all = false
+		switch x := v.(type) {
+		case *ssa.MakeClosure:
+			cl := x.Fn.(*ssa.Function)
+			nr, all := 0, true
+			allInstrs(cl, func(y ssa.Instruction) {
+				ret, ok := y.(*ssa.Return)
+				if !ok || len(ret.Results) != 1 {
+					return
 				}
+				nr++
+				fv, isFV := stripLoad(stripConv(ret.Results[0])).(*ssa.FreeVar)
+				if !isFV {
+					all = false
+					return
+				}
+				for i, q := range cl.FreeVars {
+					if q == fv && !unchanged(x.Bindings[i], d+1) {
+						all = false
+					}
+				}
+			})
+			return all && nr > 0
+		case *ssa.Alloc:
+			if w := wholeStore(x); w != nil {
+				return unchanged(w, d+1)
 			}
-		})
-		return all && nr > 0
+		case *ssa.Call:
+			g := x.Call.StaticCallee()
+			if g == nil || len(x.Call.Args) != 1 || !unchanged(x.Call.Args[0], d+1) {
+				return false
+			}
+			g = origin(g)
+			if g.Pkg == nil || !strings.HasPrefix(g.Pkg.Pkg.Path(), modPath) || len(g.Blocks) == 0 {
+				return false
+			}
+			nr, all := 0, true
+			allInstrs(g, func(y ssa.Instruction) {
+				if ret, ok := y.(*ssa.Return); ok && len(ret.Results) == 1 {
+					nr++
+					if !unchanged(ret.Results[0], d+1) {
+						all = false
+					}
+				}
+			})
+			return all && nr > 0
+		}
+		return false
 	}
+	argOK := func(v ssa.Value, _ *ssa.Function) bool { return unchanged(v, 0) }
 	nret := 0
 	allInstrs(fn, func(in ssa.Instruction) {
 		ret, ok := in.(*ssa.Return)
